@@ -123,3 +123,81 @@ func VerifC09Coop(senders, per, sameGroup int) {
 	}
 	verif_reach("C09.coop.ok")
 }
+
+// VerifC09FirstUse: the device's own chain key for the group does not exist yet (it is created lazily). Two goroutines
+// ask for a shareable copy of it concurrently (what SendSecret to two members, or PutGroup / OpenGroup racing with
+// SendSecret, do); a third seals a message at the same time if withSeal == 1. At quiescence every receiver registers
+// the announcement it was given and opens everything the device sealed: all announcements describe the one chain key the
+// device really uses.
+func VerifC09FirstUse(withSeal int) {
+	ctx := verif_background()
+	s := verifNewStore("snd", 4)
+	r1 := verifNewStore("rcv1", 4)
+	r2 := verifNewStore("rcv2", 4)
+	g := verifGroup(s, r1, 3)
+	sndMD, err := s.deviceKeystore.memberDeviceForGroup(g)
+	verif_assume(err == nil)
+	md1, err := r1.deviceKeystore.memberDeviceForGroup(g)
+	verif_assume(err == nil)
+	md2, err := r2.deviceKeystore.memberDeviceForGroup(g)
+	verif_assume(err == nil)
+	gpk, err := g.GetPubKey()
+	verif_assume(err == nil)
+	var enc1, enc2, env0 []byte
+	var pl0 []byte
+	ok := true
+	verif_go("share1", func() {
+		var err error
+		enc1, err = s.GetShareableChainKey(ctx, g, md1.Member())
+		if err != nil {
+			ok = false
+		}
+	})
+	verif_go("share2", func() {
+		var err error
+		enc2, err = s.GetShareableChainKey(ctx, g, md2.Member())
+		if err != nil {
+			ok = false
+		}
+	})
+	if withSeal == 1 {
+		verif_go("sender", func() {
+			pl0 = verif_anyBytesNonNil("plain0")
+			pay, _ := proto.Marshal(&protocoltypes.EncryptedMessage{Plaintext: pl0})
+			var err error
+			env0, err = s.SealEnvelope(ctx, g, pay)
+			if err != nil {
+				ok = false
+			}
+		})
+	}
+	verif_quiesce()
+	verif_assert(verif_parkedCount() == 0, "C09.first: nobody stays blocked")
+	verif_assert(ok, "C09.first: concurrent first uses of the group succeed")
+	if !ok {
+		return
+	}
+	pl1 := verif_anyBytesNonNil("plain1")
+	pay1, _ := proto.Marshal(&protocoltypes.EncryptedMessage{Plaintext: pl1})
+	env1, err := s.SealEnvelope(ctx, g, pay1)
+	verif_assert(err == nil, "C09.first: the device seals after its first use")
+	if err != nil {
+		return
+	}
+	for i, r := range []*secretStore{r1, r2} {
+		enc, md := enc1, md1
+		if i == 1 {
+			enc, md = enc2, md2
+		}
+		verif_assert(r.RegisterChainKey(ctx, g, sndMD.Device(), enc) == nil, "C09.first: the announcement a receiver was given registers")
+		e, h, err := r.OpenEnvelopeHeaders(env1, g)
+		verif_assume(err == nil)
+		msg, err := r.OpenEnvelopePayload(ctx, e, h, gpk, md.Device(), verif_cidN(10+i))
+		verif_assert(err == nil, "C09.first: every receiver opens what the device sealed (the announcements describe the chain key the device uses)")
+		if err == nil {
+			verif_assert(verif_bytesEq(msg.Plaintext, pl1), "C09.first: and opens it to its payload")
+		}
+	}
+	_ = env0
+	verif_reach("C09.first.ok")
+}
